@@ -71,18 +71,21 @@ inline std::ostream& operator<<(std::ostream& out, const ada::url& u) {
         out.host_start += uint32_t(password.size() + 1);
       }
 
-      out.host_end = uint32_t(out.host_start + host->size());
+      // host_start points at the "@"; host_end is one past the last
+      // character of the host, as in url_aggregator.
+      out.host_end = uint32_t(out.host_start + 1 + host->size());
     } else {
       out.username_end = out.host_start;
 
       // Host does not start with "@" if it does not include credentials.
-      out.host_end = uint32_t(out.host_start + host->size()) - 1;
+      out.host_end = uint32_t(out.host_start + host->size());
     }
 
-    running_index = out.host_end + 1;
+    running_index = out.host_end;
   } else {
     // Update host start and end date to the same index, since it does not
     // exist.
+    out.username_end = out.protocol_end;
     out.host_start = out.protocol_end;
     out.host_end = out.host_start;
 
